@@ -17,7 +17,9 @@ def run_models(v: Verdict, models: list[tuple[str, str]], expect_violation: dict
     for module, cfg in models:
         # per-action coverage only for the state-machine models (the theorem-style models have a single
         # trivial action, and expression-level coverage of their recursive operators costs a lot of memory)
-        cov = module in ("MC_Aggregator", "MC_Objects", "MC_Pipeline", "LabelMap", "MC_ResultLazy")
+        # (cheap for the small models; for Pipeline it multiplies the run time by ten: thorough tier only)
+        cov = module in ("MC_Aggregator", "MC_Objects", "LabelMap", "MC_ResultLazy") or (module == "MC_Pipeline" and v.tier == "thorough"
+                                                                                          and cfg == "MC_Pipeline_thoroughall.cfg")
         r = run_tlc(module, cfg, cont=False, timeout=timeout, extra=["-coverage", "1"] if cov else None)
         v.add_tlc(r)
         # vacuity guard: per-action counts of this model run; actions never taken in ANY model of the
